@@ -997,7 +997,8 @@ func fixedCases() [][]string {
 		// the probe: out-of-order nonces of one sender (3 is promoted once 2 is in), fee transaction last
 		mkCase("init 1 10000 1638400 1 0 3 600 0 "+richAccts+" p~100~ok~3 "+costs, []*gtxn{
 			tx("send", 5, 6, 5, 100000000, 1, "", "", 10), tx("send", 5, 6, 5, 100000000, 3, "", "", 10), tx("sc", 5, idScript, 0, 100000000, 2, "f2", "ok", 10)}, "gen 1", "verify"),
-		// FINDING: a client's pool transaction that merely carries the NAME payFees; the block fails verification
+		// REPAIRED (3af329c): a client's pool transaction that merely carries the NAME payFees used to get into the block and
+		// make it fail verification; the generator now skips it
 		mkCase("init 1 10000 1638400 1 0 3 600 0 "+richAccts+" p~100~ok~3 "+costs, []*gtxn{
 			tx("send", 5, 6, 5, 100000000, 1, "", "", 10), tx("sc", 6, idScript, 0, 10000000000, 4, "payFees", "ok", 100)}, "gen 1", "verify"),
 		// FINDING: an unknown function has the estimate MaxInt; added to a non-zero running cost it wraps negative and the
